@@ -613,7 +613,9 @@ def r11_minus_folding_walks_the_whole_tree(ctx, rule="C10.R11"):
                 n += 1
                 org = pv.of_operand(o)
                 base = mir.strip_all(org)
-                ok = base[0] == "call" and str(base[1]).split("::")[-1] in family
+                # the rewrite may be wrapped (Box::new(x.at_pos(pos)) when the helper is inlined): what counts is that the
+                # operand is made from a call of the rewrite family, not carried over
+                ok = mir.origin_mentions(org, lambda x: x[0] == "call" and str(x[1]).split("::")[-1] in family)
                 ctx.decide(ok, rule, "%s:%s:operand%d" % (rule, r["variant"], i), "%s:%s" % (f.file, st.get("ln")),
                            "operand = %s(old operand)" % (str(base[1]).split("::")[-1] if base[0] == "call" else "?"),
                            "simplify_unary_minus_literals rebuilds a %s whose operand %d is %s, not the rewrite of the old operand on "
